@@ -421,6 +421,31 @@ var extraFirst = []string{
 	`construct {?s "new"@[] ?zz} into ?a from ?b where {?s "old"@[,] ?o};`,
 }
 
+// rejectedSeconds: statements the grammar derives and the semantic layer rejects, one minimal fault per semantic
+// check (and per projection position for the aggregation checks). As SECOND statements they must stay rejected
+// whatever was parsed before on the same parser.
+var rejectedSeconds = []string{
+	`select count(?s) as ?n from ?g where {?s ?p ?o};`,
+	`select ?s, count(?o) as ?n from ?g where {?s ?p ?o};`,
+	`select ?s, ?p, count(?o) as ?n from ?g where {?s ?p ?o} group by ?s;`,
+	`select ?s, ?o from ?g where {?s ?p ?o} group by ?o;`,
+	`select ?o, ?s from ?g where {?s ?p ?o} group by ?o;`,
+	`select ?s, ?p, ?o from ?g where {?s ?p ?o} group by ?s, ?p;`,
+	`select ?s from ?g where {?s ?p ?o} group by ?zz;`,
+	`select sum(?o) as ?t, ?s from ?g where {?s ?p ?o} group by ?o;`,
+	`select ?unknown from ?g where {?s ?p ?o};`,
+	`select ?s, ?unknown from ?g where {?s ?p ?o};`,
+	`select ?s from ?g where {?s ?p ?o} order by ?zz;`,
+	`select ?s from ?g where {?s ?p ?o} order by ?s asc, ?s desc;`,
+	`select ?s from ?g where {?s ?p ?o} limit "x"^^type:text;`,
+	`select ?s from ?g where {?s ?p ?o} between 2007-01-01T00:00:00Z, 2006-01-01T00:00:00Z;`,
+	`select ?p from ?g where {?s ?p ?o . filter nosuch(?p)};`,
+	`select ?p from ?g where {?s ?p ?o . filter latest(?zz)};`,
+	`construct {?s "new"@[] ?zz} into ?a from ?b where {?s "old"@[,] ?o};`,
+	`deconstruct {?zz "new"@[] ?o} in ?a from ?b where {?s "old"@[,] ?o};`,
+	`insert data into ?a {/u<z> "p"@[] };`,
+}
+
 func ts(t *time.Time) string {
 	if t == nil {
 		return "-"
@@ -950,9 +975,13 @@ func main() {
 			firstRejected++
 		}
 	}
+	seconds := append(append([]string{}, usable...), rejectedSeconds...)
+	for _, b := range rejectedSeconds {
+		fresh[b] = observe(newSemantic(), b)
+	}
 	common.ParallelFor(len(firsts), func(i int) {
 		a := firsts[i]
-		for _, b := range usable {
+		for _, b := range seconds {
 			if r.OutOfTime() {
 				return
 			}
@@ -965,7 +994,14 @@ func main() {
 	})
 	r.Set("stateless_first_statements", len(firsts))
 	r.Set("stateless_first_statements_rejected", int(firstRejected))
-	r.Set("stateless_second_statements", len(usable))
+	r.Set("stateless_second_statements", len(seconds))
+	nrej := 0
+	for _, b := range rejectedSeconds {
+		if !fresh[b].V.Accepted {
+			nrej++
+		}
+	}
+	r.Set("stateless_second_statements_rejected_on_a_fresh_parser", nrej)
 	r.Set("stateless_pairs", int(pairs))
 	triples := 0
 	if r.Thorough() {
